@@ -112,6 +112,36 @@ Theorem C05_filter : forall f lo hi l, total_on f l ->
 Proof. intros f lo hi l T. apply fit_drain_filter; [apply Nat.lt_succ_diag_r | exact T]. Qed.
 Print Assumptions C05_filter.
 
+(* End to end: a SELECT with WHERE e and without RANGE returns exactly those events of the unfiltered result (the list
+   the wrapped iterator yields) for which e is true, whatever their (int64) timestamps are. The query is the drain of the
+   filter iterator on the DEFAULT range of newFIterator, [model.MinTimestamp, model.MaxTimestamp]; `v` says which
+   model.MinTimestamp (true = math.MinInt64, false = the earlier time.Time{}.UnixNano() = -6795364578871345152). *)
+Definition C05_query_statement (v : bool) : Prop :=
+  forall f l, total_on f l -> Forall int64_ts l -> fit_query_v v f l = Ok (filter (holds f) l).
+
+(* Proved for the code (fit_query = fit_query_v code_min_ts_is_min_int64 is what K runs; tmrange.go: MinTimestamp =
+   math.MinInt64): negative timestamps, the least and the greatest int64 included. *)
+Theorem C05_query : C05_query_statement code_min_ts_is_min_int64.
+Proof. intros f l T R. exact (fit_query_int64 f l T R). Qed.
+Print Assumptions C05_query.
+
+(* What the repair bought: with the earlier constant an event dated one nanosecond before it (an int64) is in the
+   unfiltered result and satisfies the (always true) expression, and the query drops it. *)
+Theorem C05_query_zero_time_min_refuted : ~ C05_query_statement false.
+Proof.
+  intros H. specialize (H (fun _ => Ok true) [Event (zero_time_unix_nano - 1) (B "a") []]).
+  assert (T : total_on (fun _ : event => Ok true) [Event (zero_time_unix_nano - 1) (B "a") []]) by (intros ev _; exists true; reflexivity).
+  assert (R : Forall int64_ts [Event (zero_time_unix_nano - 1) (B "a") []]) by (repeat constructor; vm_compute; discriminate).
+  specialize (H T R). vm_compute in H. discriminate H.
+Qed.
+Print Assumptions C05_query_zero_time_min_refuted.
+
+(* whichever constant: on events inside the default range the query is the filter *)
+Theorem C05_query_in_range : forall v f l, total_on f l -> Forall (in_range_v v) l ->
+  fit_query_v v f l = Ok (filter (holds f) l).
+Proof. exact fit_query_v_filter. Qed.
+Print Assumptions C05_query_in_range.
+
 (* ---- non-vacuity ---- *)
 Definition cnd (operand op v : string) : bexp := BCond (Cond (Ident (B operand) INil) (B op) (B v)).
 Definition ucnd (f operand op v : string) : bexp :=
@@ -152,6 +182,15 @@ Example like_witnesses_refused :
   build_where path_match ascii_upper ascii_lower (fun _ => None) (Some like_witness) = None /\
   build_where path_match ascii_upper ascii_lower (fun _ => None) (Some like_witness_nil) = None.
 Proof. split; vm_compute; reflexivity. Qed.
+
+(* events at the least int64, before 1970, at 0 and at the greatest int64 satisfy the hypothesis of C05_query, and the query
+   keeps those on which the closure is true *)
+Example query_range_sample :
+  let l := [Event min_int64 (B "a") []; Event (zero_time_unix_nano - 1) (B "a") []; Event (-1) (B "b") []; Event 0 (B "a") []; Event default_max_ts (B "a") []] in
+  let f := fun ev : event => Ok (bytes_eqb (ev_msg ev) (B "a")) in
+  Forall int64_ts l /\
+  fit_query f l = Ok [Event min_int64 (B "a") []; Event (zero_time_unix_nano - 1) (B "a") []; Event 0 (B "a") []; Event default_max_ts (B "a") []].
+Proof. cbn zeta. split; [repeat constructor; vm_compute; discriminate|vm_compute; reflexivity]. Qed.
 
 Example sample_text_parses :
   parse_expr_text go_unquote (show_text qx sample) = Some (Some (to_expr sample)).
